@@ -291,9 +291,17 @@ def on_integer_lattice(x):
     return bool(x.size and np.all(np.abs(x - np.round(x)) <= 1e-9 * np.maximum(1.0, np.abs(x))))
 
 
-def truncated(x):
-    """What assignment into an integer array does to non-negative floats."""
-    return np.trunc(np.asarray(x, float) + 1e-9)
+def is_truncation_of(series, before_waste, keep):
+    """series == floor(before_waste) x keep month by month (what assignment of non-negative floats into an
+    integer array does), and the truncation changed something. Robust to values an ulp away from an integer."""
+    series, x = np.asarray(series, float), np.asarray(before_waste, float)
+    if series.shape != x.shape or not keep > 0:
+        return False
+    q = series / keep
+    rq = np.round(q)
+    integer = np.abs(q - rq) <= 1e-9 * np.maximum(1.0, np.abs(q))
+    floor_of_x = (x - rq > -1e-6) & (x - rq < 1 + 1e-6)
+    return bool(integer.all() and floor_of_x.all() and (np.abs(x - rq) > 1e-6).any())
 
 
 def _ident(r, **kw):
@@ -369,10 +377,10 @@ def check_job(r, V):
             V.resid("reference:outdoor_crops", min(worst(got, plain)[1], worst(got, land)[1]))
         else:
             keep = 1 - ci["WASTE_DISTRIBUTION"]["CROPS"] / 100
-            alts = [("integer_truncation", truncated(ref["_grown"] * (1 - ref["_gh_fraction"])) * keep),
-                    ("integer_truncation", truncated(ref["_grown"]) * keep)]
+            trunc = (is_truncation_of(got, ref["_grown"] * (1 - ref["_gh_fraction"]), keep)
+                     or is_truncation_of(got, ref["_grown"], keep))
             cmp("outdoor_crops", got, land if ci["ADD_GREENHOUSES"] and ci["OG_USE_BETTER_ROTATION"] else plain,
-                {"branch": branch}, alts)
+                {"branch": branch}, [("integer_truncation", got if trunc else None)])
     if S["greenhouse_crops"].size == n:
         cmp("greenhouse_crops", S["greenhouse_crops"], ref["greenhouse_crops"], {"branch": branch})
     if S["fish"].size == n:
